@@ -306,213 +306,288 @@ fn errno_of(e: &PopenError) -> Option<i32> {
     }
 }
 
+/// One spawn: call the library, judge the outcome. Returns the Popen when it is to be kept alive.
+fn do_spawn(plan: &Plan, spec: &SpawnSpec, si: usize, pool: &Pool, boot: &[usize], mt: bool, nontrivial: &mut bool) -> Option<Popen> {
+    let t = me();
+    if sim().poisoned.is_some() {
+        return None;
+    }
+    sim().k.last_fork_of_thread[t as usize] = None;
+    let spawn_idx_guess = sim().k.n_spawned;
+    let mo = model(plan, spec, spawn_idx_guess);
+    let table_before = parent_table();
+    let forks_before = sim().k.n_fork;
+    let fired_before: u64 = sim().k.fcount.fired.values().sum();
+    let (r_in, d_in) = mk_redir(spec.stdin, &pool, "f_in");
+    let (r_out, d_out) = mk_redir(spec.stdout, &pool, "f_out");
+    let (r_err, d_err) = mk_redir(spec.stderr, &pool, "f_err");
+    // descriptors handed over (File variants) are consumed by the call
+    let mut table_expected_after = table_before.clone();
+    let _ = &mut table_expected_after;
+    let argv: Vec<OsString> = spec.argv.iter().map(|a| os(a)).collect();
+    let res: Result<subprocess::Result<Popen>, String> = if spec.via_exec {
+        let mut ex = Exec::cmd(&argv[0]);
+        for a in &argv[1..] {
+            ex = ex.arg(a);
+        }
+        if let Some(env) = &spec.env {
+            ex = ex.env_clear();
+            for (k, v) in env {
+                ex = ex.env(os(k), os(v));
+            }
+        }
+        if let Some(c) = &spec.cwd {
+            ex = ex.cwd(os(c));
+        }
+        if spec.detached {
+            ex = ex.detached();
+        }
+        use subprocess::ExecExt;
+        if let Some(u) = spec.setuid {
+            ex = ex.setuid(u);
+        }
+        if let Some(g) = spec.setgid {
+            ex = ex.setgid(g);
+        }
+        let ex = match r_in {
+            Redirection::None => ex,
+            r => ex.stdin(r),
+        };
+        let ex = match r_out {
+            Redirection::None => ex,
+            r => ex.stdout(r),
+        };
+        let ex = match r_err {
+            Redirection::None => ex,
+            r => ex.stderr(r),
+        };
+        lib("Exec::popen", move || ex.popen())
+    } else {
+        let cfg = PopenConfig {
+            stdin: r_in,
+            stdout: r_out,
+            stderr: r_err,
+            detached: spec.detached,
+            executable: spec.executable.as_ref().map(|e| os(e)),
+            env: spec.env.as_ref().map(|e| e.iter().map(|(k, v)| (os(k), os(v))).collect()),
+            cwd: spec.cwd.as_ref().map(|c| os(c)),
+            setuid: spec.setuid,
+            setgid: spec.setgid,
+            setpgid: spec.setpgid,
+            ..Default::default()
+        };
+        lib("Popen::create", move || Popen::create(&argv, cfg))
+    };
+    let forked = sim().k.last_fork_of_thread[t as usize].is_some();
+    let spawn_idx = sim().k.last_fork_of_thread[t as usize].unwrap_or(spawn_idx_guess);
+    let _ = forks_before;
+    let fault_fired = sim().k.fcount.fired.values().sum::<u64>() > fired_before;
+    let fired_names: Vec<String> = sim().k.fcount.fired.keys().map(|s| s.to_string()).collect();
+    let child_pid = if forked { sim().k.all_procs().filter(|p| p.kind == PKind::Child(spawn_idx)).map(|p| p.pid).next() } else { None };
+    let ctx = format!("spawn#{} ({})", si, if spec.via_exec { "Exec::popen" } else { "Popen::create" });
+    let res = match res {
+        Err(pm) => {
+            violate("panic", format!("panic/in={}", if spec.via_exec { "Exec::popen" } else { "Popen::create" }), format!("{} panicked: {}", ctx, pm));
+            return None;
+        }
+        Ok(r) => r,
+    };
+    match res {
+        Ok(p) => {
+            // ---- C07: a handle only if the program image was started, known at return
+            let started = child_pid.and_then(|pid| sim().k.all_procs().find(|c| c.pid == pid && c.kind == PKind::Child(spawn_idx))).map(|c| c.exec.is_some()).unwrap_or(false);
+            if !started {
+                let state = child_pid.and_then(|pid| sim().k.procs.get(&pid)).map(|c| format!("{:?}", c.state)).unwrap_or_else(|| "none".into());
+                violate("ok_without_exec", format!("ok_without_exec/child_state={}", state.split([' ', '{', '(']).next().unwrap_or("")), format!("{} returned a handle but no program image was started (child state {}, expected {:?})", ctx, state, mo.expect));
+            }
+            match &mo.expect {
+                Expect::Logic => violate("not_refused", if spec.stdin == RedirSpec::Merge { "not_refused/stdin=Merge".to_string() } else { "not_refused/stdout=Merge/stderr=Merge".to_string() }, format!("{}: invalid redirection combination (stdin={:?} stdout={:?} stderr={:?}) was not refused", ctx, spec.stdin, spec.stdout, spec.stderr)),
+                Expect::Nul => violate("nul_accepted", "nul_accepted/ok".into(), format!("{}: input containing NUL started a process", ctx)),
+                Expect::Os(errs) if started => {
+                    if errs == &vec![libc::EPERM] && (spec.setuid.is_some() || spec.setgid.is_some()) {
+                        violate("ids", "ids/started_although_refused".into(), format!("{}: identity change must be refused, yet the program started", ctx));
+                    } else {
+                        violate("ok_without_exec", "ok_without_exec/model_says_fail".into(), format!("{}: started although the model predicts failure {:?}", ctx, errs));
+                    }
+                }
+                _ => {}
+            }
+            if started {
+                let pid = child_pid.unwrap();
+                judge_child(plan, spec, si, pid, &mo, &p, [d_in, d_out, d_err], &boot, &ctx);
+                *nontrivial = true;
+            }
+            // any silently failed pre-exec step?
+            if let Some(c) = sim().k.child_by_spawn(spawn_idx) {
+                if let Some(rep) = &c.report {
+                    for call in &rep.calls {
+                        if call.ret < 0 && !matches!(call.op, ChildOp::Exec { .. }) && started {
+                            violate("ok_without_exec", format!("ok_without_exec/step_failed={}", op_name(&call.op)), format!("{}: child-side step {:?} failed with errno {} but the launch went on", ctx, op_name(&call.op), call.errno));
+                        }
+                    }
+                }
+            }
+            let mut p = p;
+            if spec.sigpipe_probe && started && p.stdout.is_some() && child_pid.map(|pid| sim().k.is_alive(pid)).unwrap_or(false) {
+                // the consumer goes away: the producer must die of SIGPIPE
+                drop(p.stdout.take());
+                let pid = child_pid.unwrap();
+                until_gone(pid, 3_600_000_000_000);
+                if let Some(c) = sim().k.all_procs().find(|c| c.pid == pid && c.kind == PKind::Child(spawn_idx)) {
+                    if c.epipes > 0 || c.exit_cause != Some(ExitCause::Signal(SIGPIPE)) {
+                        violate("sigpipe_not_fatal", format!("sigpipe_not_fatal/epipes={}", c.epipes.min(3)), format!("{}: the producer survived {} write(s) to a pipe without reader and ended with {:?}", ctx, c.epipes, c.exit_cause));
+                    }
+                    sim().k.probe("sigpipe_consequence_checked");
+                }
+            }
+            if spec.keep {
+                judge_lookup(spec, spawn_idx, &mo, &ctx);
+                return Some(p);
+            } else {
+                kill_all_children_of(spawn_idx);
+                let _ = lib_drop("drop(Popen)", p);
+                judge_after_drop(spec, spawn_idx, &ctx, false);
+            }
+        }
+        Err(e) => {
+            let code = errno_of(&e);
+            match &mo.expect {
+                Expect::Logic => {
+                    if !matches!(e, PopenError::LogicError(_)) || forked {
+                        violate("not_refused", format!("not_refused/err={}", if forked { "forked" } else { "not_logic" }), format!("{}: expected LogicError without starting a process, got {:?} (forked: {})", ctx, e, forked));
+                    }
+                }
+                Expect::Nul => {
+                    sim().k.probe("nul_rejected");
+                }
+                Expect::Start(img) => {
+                    if !fault_fired {
+                        violate("spawn_failed", format!("spawn_failed/errno={:?}", code), format!("{}: failed with {:?} although {:?} can be started", ctx, e, String::from_utf8_lossy(img)));
+                        if code == Some(libc::EPERM) && spec.setuid.is_some() && spec.setgid.is_some() {
+                            violate("ids", "ids/requested=uid+gid/errno=EPERM".into(), format!("{}: both setuid({:?}) and setgid({:?}) were requested by root; the launch failed with EPERM", ctx, spec.setuid, spec.setgid));
+                        }
+                    } else {
+                        // the error must be the one of the injected step
+                        check_injected_errno(plan, spawn_idx, code, &ctx, &fired_names);
+                    }
+                }
+                Expect::Os(errs) => {
+                    if !fault_fired || errs.iter().any(|_| true) {
+                        let ok = code.map(|c| errs.contains(&c)).unwrap_or(false) || (fault_fired && injected_errnos(plan).contains(&code.unwrap_or(-1)));
+                        if !ok {
+                            violate("wrong_errno", format!("wrong_errno/got={:?}/want={:?}", code, errs), format!("{}: failed with {:?}; the failing step(s) produced {:?}", ctx, e, errs));
+                        }
+                    }
+                }
+            }
+            if fault_fired || matches!(mo.expect, Expect::Os(_)) {
+                *nontrivial = true;
+            }
+            drop(e);
+            if forked {
+                judge_after_drop(spec, spawn_idx, &ctx, true);
+            }
+            // C07: nothing left open in the parent
+            let after = parent_table();
+            let handed: Vec<usize> = [d_in, d_out, d_err].iter().flatten().cloned().collect();
+            for (fd, d) in after.iter() {
+                if !mt && table_before.get(fd) != Some(d) && !pool.descs.contains(d) {
+                    violate("fd_leak_parent", format!("fd_leak_parent/kind={}", desc_kind_name(*d)), format!("{}: after the failed launch descriptor {} ({}) is still open in the parent", ctx, fd, desc_kind_name(*d)));
+                }
+            }
+            let _ = handed;
+        }
+    }
+    // C15: with a slash no search; candidates in order
+    judge_lookup(spec, spawn_idx, &mo, &ctx);
+    None
+}
+
 pub fn run(plan: &Plan, sp: &SpawnPlan) -> FamOut {
     let mut nontrivial = false;
-    // the file pool (harness-owned)
-    let mut pool = Pool { rcs: vec![], descs: vec![] };
-    for i in 0..3 {
-        let f = mk_file(&format!("pool{}", i), vec![]);
-        pool.descs.push(desc_of_parent_fd(f.as_raw_fd()).unwrap());
-        pool.rcs.push(Rc::new(f));
-    }
     let boot: Vec<usize> = (0..3).map(|i| desc_of_parent_fd(i).unwrap()).collect();
-    let mut kept: Vec<Popen> = vec![];
-    for (si, spec) in sp.spawns.iter().enumerate() {
-        if sim().poisoned.is_some() {
-            break;
+    if sp.threads == 0 {
+        let pool = Pool::new("m");
+        let mut kept: Vec<Popen> = vec![];
+        for (si, spec) in sp.spawns.iter().enumerate() {
+            if let Some(p) = do_spawn(plan, spec, si, &pool, &boot, false, &mut nontrivial) {
+                kept.push(p);
+            }
         }
-        let spawn_idx = sim().k.n_spawned;
-        let mo = model(plan, spec, spawn_idx);
-        let table_before = parent_table();
-        let forks_before = sim().k.n_fork;
-        let fired_before: u64 = sim().k.fcount.fired.values().sum();
-        let (r_in, d_in) = mk_redir(spec.stdin, &pool, "f_in");
-        let (r_out, d_out) = mk_redir(spec.stdout, &pool, "f_out");
-        let (r_err, d_err) = mk_redir(spec.stderr, &pool, "f_err");
-        // descriptors handed over (File variants) are consumed by the call
-        let mut table_expected_after = table_before.clone();
-        let _ = &mut table_expected_after;
-        let argv: Vec<OsString> = spec.argv.iter().map(|a| os(a)).collect();
-        let res: Result<subprocess::Result<Popen>, String> = if spec.via_exec {
-            let mut ex = Exec::cmd(&argv[0]);
-            for a in &argv[1..] {
-                ex = ex.arg(a);
-            }
-            if let Some(env) = &spec.env {
-                ex = ex.env_clear();
-                for (k, v) in env {
-                    ex = ex.env(os(k), os(v));
-                }
-            }
-            if let Some(c) = &spec.cwd {
-                ex = ex.cwd(os(c));
-            }
-            if spec.detached {
-                ex = ex.detached();
-            }
-            use subprocess::ExecExt;
-            if let Some(u) = spec.setuid {
-                ex = ex.setuid(u);
-            }
-            if let Some(g) = spec.setgid {
-                ex = ex.setgid(g);
-            }
-            let ex = match r_in {
-                Redirection::None => ex,
-                r => ex.stdin(r),
-            };
-            let ex = match r_out {
-                Redirection::None => ex,
-                r => ex.stdout(r),
-            };
-            let ex = match r_err {
-                Redirection::None => ex,
-                r => ex.stderr(r),
-            };
-            lib("Exec::popen", move || ex.popen())
-        } else {
-            let cfg = PopenConfig {
-                stdin: r_in,
-                stdout: r_out,
-                stderr: r_err,
-                detached: spec.detached,
-                executable: spec.executable.as_ref().map(|e| os(e)),
-                env: spec.env.as_ref().map(|e| e.iter().map(|(k, v)| (os(k), os(v))).collect()),
-                cwd: spec.cwd.as_ref().map(|c| os(c)),
-                setuid: spec.setuid,
-                setgid: spec.setgid,
-                setpgid: spec.setpgid,
-                ..Default::default()
-            };
-            lib("Popen::create", move || Popen::create(&argv, cfg))
-        };
-        let forked = sim().k.n_fork > forks_before;
-        let fault_fired = sim().k.fcount.fired.values().sum::<u64>() > fired_before;
-        let fired_names: Vec<String> = sim().k.fcount.fired.keys().map(|s| s.to_string()).collect();
-        let child_pid = if forked { sim().k.all_procs().filter(|p| p.kind == PKind::Child(spawn_idx)).map(|p| p.pid).next() } else { None };
-        let ctx = format!("spawn#{} ({})", si, if spec.via_exec { "Exec::popen" } else { "Popen::create" });
-        let res = match res {
-            Err(pm) => {
-                violate("panic", format!("panic/in={}", if spec.via_exec { "Exec::popen" } else { "Popen::create" }), format!("{} panicked: {}", ctx, pm));
-                continue;
-            }
-            Ok(r) => r,
-        };
-        match res {
-            Ok(p) => {
-                // ---- C07: a handle only if the program image was started, known at return
-                let started = child_pid.and_then(|pid| sim().k.all_procs().find(|c| c.pid == pid && c.kind == PKind::Child(spawn_idx))).map(|c| c.exec.is_some()).unwrap_or(false);
-                if !started {
-                    let state = child_pid.and_then(|pid| sim().k.procs.get(&pid)).map(|c| format!("{:?}", c.state)).unwrap_or_else(|| "none".into());
-                    violate("ok_without_exec", format!("ok_without_exec/child_state={}", state.split([' ', '{', '(']).next().unwrap_or("")), format!("{} returned a handle but no program image was started (child state {}, expected {:?})", ctx, state, mo.expect));
-                }
-                match &mo.expect {
-                    Expect::Logic => violate("not_refused", if spec.stdin == RedirSpec::Merge { "not_refused/stdin=Merge".to_string() } else { "not_refused/stdout=Merge/stderr=Merge".to_string() }, format!("{}: invalid redirection combination (stdin={:?} stdout={:?} stderr={:?}) was not refused", ctx, spec.stdin, spec.stdout, spec.stderr)),
-                    Expect::Nul => violate("nul_accepted", "nul_accepted/ok".into(), format!("{}: input containing NUL started a process", ctx)),
-                    Expect::Os(errs) if started => {
-                        if errs == &vec![libc::EPERM] && (spec.setuid.is_some() || spec.setgid.is_some()) {
-                            violate("ids", "ids/started_although_refused".into(), format!("{}: identity change must be refused, yet the program started", ctx));
-                        } else {
-                            violate("ok_without_exec", "ok_without_exec/model_says_fail".into(), format!("{}: started although the model predicts failure {:?}", ctx, errs));
-                        }
-                    }
-                    _ => {}
-                }
-                if started {
-                    let pid = child_pid.unwrap();
-                    judge_child(plan, spec, si, pid, &mo, &p, [d_in, d_out, d_err], &boot, &ctx);
-                    nontrivial = true;
-                }
-                // any silently failed pre-exec step?
-                if let Some(c) = sim().k.child_by_spawn(spawn_idx) {
-                    if let Some(rep) = &c.report {
-                        for call in &rep.calls {
-                            if call.ret < 0 && !matches!(call.op, ChildOp::Exec { .. }) && started {
-                                violate("ok_without_exec", format!("ok_without_exec/step_failed={}", op_name(&call.op)), format!("{}: child-side step {:?} failed with errno {} but the launch went on", ctx, op_name(&call.op), call.errno));
-                            }
-                        }
-                    }
-                }
-                let mut p = p;
-                if spec.sigpipe_probe && started && p.stdout.is_some() && child_pid.map(|pid| sim().k.is_alive(pid)).unwrap_or(false) {
-                    // the consumer goes away: the producer must die of SIGPIPE
-                    drop(p.stdout.take());
-                    let pid = child_pid.unwrap();
-                    until_gone(pid, 3_600_000_000_000);
-                    if let Some(c) = sim().k.all_procs().find(|c| c.pid == pid && c.kind == PKind::Child(spawn_idx)) {
-                        if c.epipes > 0 || c.exit_cause != Some(ExitCause::Signal(SIGPIPE)) {
-                            violate("sigpipe_not_fatal", format!("sigpipe_not_fatal/epipes={}", c.epipes.min(3)), format!("{}: the producer survived {} write(s) to a pipe without reader and ended with {:?}", ctx, c.epipes, c.exit_cause));
-                        }
-                        sim().k.probe("sigpipe_consequence_checked");
-                    }
-                }
-                if spec.keep {
+        // C08 over the whole history
+        judge_leaks();
+        // release
+        kill_all_children();
+        for p in kept {
+            let _ = lib_drop("drop(Popen)", p);
+        }
+        drop(pool);
+        return FamOut { nontrivial };
+    }
+    // several parent threads spawn concurrently (every interposed call is a switch point)
+    let nt = sp.threads.min(3);
+    let mut handles = vec![];
+    for ti in 0..nt {
+        let specs: Vec<(usize, SpawnSpec)> = sp.spawns.iter().cloned().enumerate().filter(|(i, _)| i % nt == ti).collect();
+        let plan2 = plan.clone();
+        let boot2 = boot.clone();
+        let (u, h) = crate::simrt::spawn(move || {
+            let pool = Pool::new(&format!("t{}", ti));
+            let mut nt_flag = false;
+            let mut kept: Vec<Popen> = vec![];
+            for (si, spec) in specs.iter() {
+                if let Some(p) = do_spawn(&plan2, spec, *si, &pool, &boot2, true, &mut nt_flag) {
                     kept.push(p);
-                } else {
-                    kill_all_children_of(spawn_idx);
-                    let _ = lib_drop("drop(Popen)", p);
-                    judge_after_drop(spec, spawn_idx, &ctx, false);
                 }
             }
-            Err(e) => {
-                let code = errno_of(&e);
-                match &mo.expect {
-                    Expect::Logic => {
-                        if !matches!(e, PopenError::LogicError(_)) || forked {
-                            violate("not_refused", format!("not_refused/err={}", if forked { "forked" } else { "not_logic" }), format!("{}: expected LogicError without starting a process, got {:?} (forked: {})", ctx, e, forked));
-                        }
-                    }
-                    Expect::Nul => {
-                        sim().k.probe("nul_rejected");
-                    }
-                    Expect::Start(img) => {
-                        if !fault_fired {
-                            violate("spawn_failed", format!("spawn_failed/errno={:?}", code), format!("{}: failed with {:?} although {:?} can be started", ctx, e, String::from_utf8_lossy(img)));
-                            if code == Some(libc::EPERM) && spec.setuid.is_some() && spec.setgid.is_some() {
-                                violate("ids", "ids/requested=uid+gid/errno=EPERM".into(), format!("{}: both setuid({:?}) and setgid({:?}) were requested by root; the launch failed with EPERM", ctx, spec.setuid, spec.setgid));
-                            }
-                        } else {
-                            // the error must be the one of the injected step
-                            check_injected_errno(plan, spawn_idx, code, &ctx, &fired_names);
-                        }
-                    }
-                    Expect::Os(errs) => {
-                        if !fault_fired || errs.iter().any(|_| true) {
-                            let ok = code.map(|c| errs.contains(&c)).unwrap_or(false) || (fault_fired && injected_errnos(plan).contains(&code.unwrap_or(-1)));
-                            if !ok {
-                                violate("wrong_errno", format!("wrong_errno/got={:?}/want={:?}", code, errs), format!("{}: failed with {:?}; the failing step(s) produced {:?}", ctx, e, errs));
-                            }
-                        }
-                    }
+            // let the other threads get their spawns in while these handles are alive
+            crate::api::yield_threads(8);
+            for p in kept {
+                let pid = p.pid().map(|x| x as i32);
+                if let Some(pid) = pid {
+                    kill_pid(pid);
                 }
-                if fault_fired || matches!(mo.expect, Expect::Os(_)) {
-                    nontrivial = true;
-                }
-                drop(e);
-                judge_after_drop(spec, spawn_idx, &ctx, true);
-                // C07: nothing left open in the parent
-                let after = parent_table();
-                let handed: Vec<usize> = [d_in, d_out, d_err].iter().flatten().cloned().collect();
-                for (fd, d) in after.iter() {
-                    if table_before.get(fd) != Some(d) && !pool.descs.contains(d) {
-                        violate("fd_leak_parent", format!("fd_leak_parent/kind={}", desc_kind_name(*d)), format!("{}: after the failed launch descriptor {} ({}) is still open in the parent", ctx, fd, desc_kind_name(*d)));
-                    }
-                }
-                let _ = handed;
+                let _ = lib_drop("drop(Popen)", p);
             }
-        }
-        // C15: with a slash no search; candidates in order
-        judge_lookup(spec, spawn_idx, &mo, &ctx);
+            drop(pool);
+        });
+        handles.push((u, h));
     }
-    // C08 over the whole history
+    for (u, _) in handles.iter() {
+        crate::simrt::join(*u);
+    }
+    if sim().threads.len() >= 3 {
+        sim().k.probe("concurrent_spawn_threads");
+    }
     judge_leaks();
-    // release
     kill_all_children();
-    for p in kept {
-        let _ = lib_drop("drop(Popen)", p);
-    }
-    drop(pool);
+    nontrivial = true;
+    // the OS threads are reaped by the runner (they have left the simulation)
+    crate::runner::stash_handles(handles.into_iter().map(|(_, h)| h).collect());
     FamOut { nontrivial }
+}
+
+fn kill_pid(pid: i32) {
+    let s = sim();
+    if s.k.procs.get(&pid).map(|p| p.state == PState::PreExec).unwrap_or(false) {
+        s.step_entity(Ent::Proc(pid));
+    }
+    if s.k.is_alive(pid) {
+        s.k.proc_mut(pid).stopped = false;
+        s.k.exit_proc(pid, ExitCause::Signal(SIGKILL));
+    }
+}
+
+impl Pool {
+    fn new(tag: &str) -> Pool {
+        let mut pool = Pool { rcs: vec![], descs: vec![] };
+        for i in 0..3 {
+            let f = mk_file(&format!("pool{}{}", tag, i), vec![]);
+            pool.descs.push(desc_of_parent_fd(f.as_raw_fd()).unwrap());
+            pool.rcs.push(Rc::new(f));
+        }
+        pool
+    }
 }
 
 fn kill_all_children_of(spawn_idx: usize) {
@@ -765,6 +840,7 @@ fn judge_lookup(spec: &SpawnSpec, spawn_idx: usize, mo: &ModelOut, ctx: &str) {
 /// C08: no child holds a library pipe end that is not one of its own standard streams.
 pub fn judge_leaks() {
     let s = sim();
+    let mut cross_hits = 0u64;
     for c in s.k.all_procs() {
         if !matches!(c.kind, PKind::Child(_)) || c.exec.is_none() {
             continue;
@@ -786,8 +862,21 @@ pub fn judge_leaks() {
                 continue;
             }
             let role = pipe_role(pi);
-            violate("fd_leak_child", format!("fd_leak_child/pipe={}/end={}", role, end), format!("child {} ({:?}) holds descriptor {} = {} end of a library pipe ({}) that is not one of its standard streams", c.pid, c.kind, fd, end, role));
+            let cross = match (s.k.pipes[pi].creator, c.forked_by) {
+                (Some(a), Some(b)) => a != b,
+                _ => false,
+            };
+            if cross {
+                // the pipe belongs to a spawn in progress on another thread
+                violate("fd_leak_child", "fd_leak_child/cause=concurrent_spawn_on_other_thread".into(), format!("child {} ({:?}, forked by thread {:?}) holds descriptor {} = {} end of a pipe ({}) that thread {:?} created for a spawn of its own", c.pid, c.kind, c.forked_by, fd, end, role, s.k.pipes[pi].creator));
+                cross_hits += 1;
+            } else {
+                violate("fd_leak_child", format!("fd_leak_child/pipe={}/end={}", role, end), format!("child {} ({:?}) holds descriptor {} = {} end of a library pipe ({}) that is not one of its standard streams", c.pid, c.kind, fd, end, role));
+            }
         }
+    }
+    for _ in 0..cross_hits {
+        sim().k.probe("cross_thread_pipe_inherited");
     }
 }
 
@@ -927,6 +1016,11 @@ pub fn generate(prop: &str, rng: &mut Rng, plan: &mut Plan, index: u64) {
                 spec.via_exec = valid && rng.chance(1, 3);
                 spec.keep = rng.chance(1, 3);
                 sp.spawns.push(spec);
+            }
+            // spawns from (short-lived) threads that exit afterwards
+            if index % 4 == 3 {
+                sp.threads = 1 + rng.below(3) as usize;
+                plan.knobs.personality = crate::sim::Personality::Uniform;
             }
         }
         "C06" => {
@@ -1283,6 +1377,11 @@ pub fn generate(prop: &str, rng: &mut Rng, plan: &mut Plan, index: u64) {
                 // long-lived children
                 spec.argv[0] = b"/bin/prog".to_vec();
                 sp.spawns.push(spec);
+            }
+            // the same from several threads spawning concurrently
+            if index % 4 == 2 {
+                sp.threads = 2 + rng.below(2) as usize;
+                plan.knobs.personality = *rng.pick(&[crate::sim::Personality::Uniform, crate::sim::Personality::Bursty]);
             }
         }
     }
